@@ -53,6 +53,14 @@ def _build(arr, via="flat"):
     s = np.array(SENT[kind(dt)]).astype(npdt)
     if via == "rows":
         return RaggedArray([dec_seq(r, dt) for r in rows], dtype=npdt)
+    if via == "nprows":                        # typed numpy rows and no dtype argument: the element type comes from the rows
+        if data.size == 0:
+            return RaggedArray([dec_seq(r, dt) for r in rows], dtype=npdt)
+        return RaggedArray([dec_seq(r, dt) for r in rows])
+    if via == "pylists":                       # plain nested lists; python values carry bool / int64 / float64 only
+        if data.size == 0 or dt not in ("b1", "i8", "f8"):
+            return RaggedArray([dec_seq(r, dt) for r in rows], dtype=npdt)
+        return RaggedArray([dec_seq(r, dt).tolist() for r in rows])
     if via == "flat":
         return RaggedArray(data, lens, dtype=npdt)
     if via == "shape":
@@ -91,7 +99,7 @@ def _build(arr, via="flat"):
     raise ValueError(via)
 
 
-VIAS = ["rows", "flat", "shape", "rowview", "colview", "stepview", "revview", "listview", "ufunc", "assigned"]
+VIAS = ["rows", "flat", "shape", "rowview", "colview", "stepview", "revview", "listview", "ufunc", "assigned", "nprows", "pylists"]
 
 
 def pre_reads(a, pre):
@@ -207,6 +215,10 @@ def py_index(rsel, csel, spelling="plain"):
             return np.int32(v)
         if spelling == "numpy32" and sel[0] == "list":
             return np.array(v, dtype=np.int32)
+        if spelling == "pylist" and sel[0] == "mask":
+            return [bool(x) for x in v]            # a boolean mask written as a plain list of bools
+        if spelling == "pylist" and sel[0] == "int":
+            return v
         return v
     r = alt(rsel)
     if csel[0] == "none":
@@ -353,6 +365,8 @@ def py_operand(opd, o):
     if k == "ra":
         return build(opd[1], o.get("via", "flat"))
     if k == "np":
+        if o.get("zerod"):                         # the same typed scalar as a 0-d array
+            return np.array(dec_val(opd[2], opd[1]), dtype=DT2NP[opd[1]])
         return DT2NP[opd[1]](dec_val(opd[2], opd[1]))
     if k == "py":
         pk = opd[1]
@@ -521,6 +535,15 @@ def op_ragged_slice(case, o):
     else:
         rows = inp[2]
         x = np.array([dec_seq(r, inp[1]) for r in rows], dtype=DT2NP[inp[1]]).reshape(len(rows), len(rows[0]) if rows else 0)
+        lay = o.get("layout", "C")                 # the same matrix in another memory layout is the same matrix
+        if lay == "F":
+            x = np.asfortranarray(x)
+        elif lay == "T":
+            x = np.ascontiguousarray(x.T).T
+        elif lay == "strided":
+            big = np.zeros((x.shape[0], 2 * x.shape[1]), dtype=x.dtype)
+            big[:, ::2] = x
+            x = big[:, ::2]
     s = None if starts[0] == "none" else np.array(starts[1], dtype=int)
     e = None if ends[0] == "none" else np.array(ends[1], dtype=int)
     if o.get("how") == "nps" and k != "ra" and s is not None and e is not None:
